@@ -547,6 +547,15 @@ pub fn gen_voice(t: &mut Tape, o: GenOpts) -> VoiceSpec {
     } else if t.chance(0.3) {
         options.push("GAMMA=0".to_string());
     }
+    if !lsp && t.chance(0.15) {
+        // legal but pointless for a mel-cepstral voice: the flag must still be read
+        options.push(format!("LN_GAIN={}", t.below(2)));
+    }
+    // the order of the options in the header is arbitrary
+    for i in (1..options.len()).rev() {
+        let j = t.below(i + 1);
+        options.swap(i, j);
+    }
     let spec_name = if lsp { "LSP" } else { "MCP" };
     let spec_model = gen_model(t, if lsp { "lsp" } else { "mgc" }, &states, spec_len * nw * 2, o.max_depth, spec_pdf);
     // GV statistics consistent with the stream's own PDFs (variance of the static means over all
